@@ -52,9 +52,13 @@ def shape_program(rng):
     pick = [rng.choice(lv) for _ in range(k)]
     if k == 1 and rng.random() < 0.6:
         rexp, rann = pick[0][0], ann(pick[0][1])
-    elif k >= 3 and rng.random() < 0.4:
-        rexp = f"({pick[0][0]}, ({', '.join(p for p, _ in pick[1:])}))"
-        rann = f"Tuple[{ann(pick[0][1])}, Tuple[{', '.join(ann(t) for _, t in pick[1:])}]]"
+    elif k >= 3 and rng.random() < 0.6:
+        if rng.random() < 0.5:
+            rexp = f"({pick[0][0]}, ({', '.join(p for p, _ in pick[1:])}))"
+            rann = f"Tuple[{ann(pick[0][1])}, Tuple[{', '.join(ann(t) for _, t in pick[1:])}]]"
+        else:  # a nested tuple FOLLOWED by another element
+            rexp = f"(({', '.join(p for p, _ in pick[:-1])}), {pick[-1][0]})"
+            rann = f"Tuple[Tuple[{', '.join(ann(t) for _, t in pick[:-1])}], {ann(pick[-1][1])}]"
     else:
         rexp = "(" + ", ".join(p for p, _ in pick) + ("," if k == 1 else "") + ")"
         rann = "Tuple[" + ", ".join(ann(t) for _, t in pick) + "]"
@@ -206,7 +210,15 @@ def run(tier, seed):
     srcs = [("suite", s) for s in progs.suite_programs()] + [("struct", s) for s in gen.struct_templates()]
     nshape = 120 if tier == "quick" else 2000
     srcs += [("shape", shape_program(rng)) for _ in range(nshape)]
-    srcs += [("return-name", "def test(a: Tuple[Qint[2], bool]) -> Tuple[Qint[2], bool]:\n    return a"),
+    srcs += [("nested", "def test(a: Qint[2], b: bool, c: Qint[2]) -> Tuple[Tuple[bool, Qint[2]], Qint[2]]:\n    return ((b, a), c)"),
+             ("nested", "def test(a: Tuple[Tuple[bool, Qint[2]], Qint[2]]) -> Tuple[Tuple[bool, Qint[2]], Qint[2]]:\n    return a"),
+             ("nested", "def test(a: Qint[2], b: Qint[4]) -> Tuple[Tuple[Qint[2], Qint[4]], Qint[4]]:\n    return ((a, b), b)"),
+             ("nested", "def test(a: Tuple[Tuple[Qint[2], bool], Tuple[bool, Qint[2]]], b: bool) -> Tuple[Tuple[bool, Qint[2]], bool, Qint[2]]:\n    return ((a[0][1], a[1][1]), b, a[0][0])"),
+             ("nested", "def test(a: Qlist[Tuple[bool, Qint[2]], 2]) -> Tuple[Qint[2], Tuple[bool, bool]]:\n    return (a[1][1], (a[0][0], a[1][0]))"),
+             ("wide", "def test(a: Qint[12]) -> Qint[12]:\n    return a << 1"),
+             ("wide", "def test(a: Qint[8], b: Qint[4]) -> Qint[12]:\n    return a + b"),
+             ("mixed-width", "def test(a: Qint[2], b: Qint[4], c: Qint[2]) -> Qint[4]:\n    return a + b + c"),
+             ("return-name", "def test(a: Tuple[Qint[2], bool]) -> Tuple[Qint[2], bool]:\n    return a"),
              ("return-name", "def test(a: Tuple[bool, bool]) -> Tuple[bool, bool]:\n    return a")]
     nvals = 24 if tier == "quick" else 128
     jobs = [dict(src=s, seed=seed * 100003 + i, nvals=nvals) for i, (_, s) in enumerate(srcs)]
